@@ -22,6 +22,10 @@ func swarmWorld(e *Env) world.Config {
 	cfg.Sticky = []int{0, 4, 20}[c.Choose("sticky", 3)]
 	cfg.FragProb = []int{100, 0, 500}[c.Choose("frag", 3)]
 	cfg.WClock = 1
+	// one run in four: the backend demands password authentication on every connection
+	if c.Choose("auth", 4) == 3 {
+		cfg.AuthUser, cfg.AuthPass = "cassandra", "s3cret"
+	}
 	// one run in five schedules tasks by PCT priorities instead of uniformly
 	cfg.PCT = []int{0, 0, 0, 0, 3}[c.Choose("pct", 5)]
 	// sub-millisecond perturbation keeps timers of different connections from tying
